@@ -57,6 +57,8 @@ class SList:
         self.opaque_tail = origin is not None     # holds elements the interpreter did not enumerate
         self.source = None         # the sequence a fully enumerated comprehension ran over
         self.tail = []             # sequences appended after the enumerated items (extend / += with a non-enumerated sequence)
+        self.birth = None          # loop stack (uids) at creation, set by the interpreter
+        self.segs = None           # [('item', v) | ('loop', uid, seq, [...])] when elements were appended inside symbolic loops
 
     def __repr__(self):
         if self.origin is not None:
@@ -155,6 +157,8 @@ class Exec:
         self.heap = {}
         self.depth = 0
         self.steps = 0
+        self.loops = []            # active symbolic loops: (uid, seq)
+        self._loop_uid = 0
 
     # ---------------------------------------------------------------- truth
     def truth(self, v, node=None):
@@ -267,7 +271,9 @@ class Exec:
         return T('tuple', tuple(self.ev(x, env) for x in e.elts))
 
     def e_List(self, e, env):
-        return SList([self.ev(x, env) for x in e.elts])
+        out = SList([self.ev(x, env) for x in e.elts])
+        out.birth = tuple(u for u, _ in self.loops)
+        return out
 
     def e_Set(self, e, env):
         return SList([self.ev(x, env) for x in e.elts], kind='set')
@@ -474,6 +480,8 @@ class Exec:
         el = T('elem', (seq,))
         self.bind(gen.target, el, env2)
         self.events.append(('loop-begin', seq, out.id))
+        self._loop_uid += 1
+        self.loops.append((self._loop_uid, seq))
         conds = []
         ok = True
         for c in gen.ifs:
@@ -486,6 +494,7 @@ class Exec:
         if ok:
             val = self.ev(elt, env2) if not isinstance(elt, tuple) else T('tuple', tuple(self.ev(x, env2) for x in elt))
             self.events.append(('produce', out.id, val))
+        self.loops.pop()
         self.events.append(('loop-end', seq, out.id))
         out.origin = (seq, val, tuple(conds))
         out.opaque_tail = True
@@ -570,6 +579,8 @@ class Exec:
                 return r
         if isinstance(recv, str) and attr in ('strip', 'lower', 'upper', 'rstrip', 'lstrip') and not args:
             return getattr(recv, attr)()
+        if isinstance(recv, str) and attr == 'split' and not kwargs and all(isinstance(a, str) for a in args) and len(args) <= 1:
+            return SList(recv.split(*args))
         # builtins on modelled values
         if isinstance(node.func, ast.Name) and node.func.id not in env:
             b = self.builtin(node.func.id, args, kwargs, node, env)
@@ -713,6 +724,17 @@ class Exec:
                     return name == 'all'
                 return self.truth(elt, node)
             return T('call', (name, args, ()))
+        if name == 'map' and len(args) == 2:
+            items = self.iterate(args[1])
+            if items is not None:
+                f = args[0]
+                out = []
+                for it in items:
+                    if isinstance(f, T) and f.op in ('lambda', 'func'):
+                        out.append(self.apply_closure(f.args[1], (it,), ()))
+                    else:
+                        out.append(T('call', (gname(f), (it,), ())))
+                return SList(out, kind='gen')
         if name == 'next' and len(args) in (1, 2) and isinstance(args[0], SList) and not args[0].opaque_tail and args[0].kind != 'dict':
             if args[0].items:
                 return args[0].items[0]
@@ -731,6 +753,19 @@ class Exec:
 
     def list_method(self, lst, attr, args, kwargs):
         if attr == 'append' and len(args) == 1:
+            rel = [l for l in self.loops if lst.birth is not None and l[0] not in lst.birth]
+            if rel or lst.segs is not None:
+                if lst.segs is None:
+                    lst.segs = [('item', x) for x in lst.items]
+                cur = lst.segs
+                for uid, seq in rel:
+                    if cur and cur[-1][0] == 'loop' and cur[-1][1] == uid:
+                        cur = cur[-1][3]
+                    else:
+                        node = ('loop', uid, seq, [])
+                        cur.append(node)
+                        cur = node[3]
+                cur.append(('item', args[0]))
             if lst.tail:
                 lst.tail.append(SList([args[0]]))
             else:
@@ -739,7 +774,12 @@ class Exec:
             return None
         if attr == 'extend' and len(args) == 1:
             a = args[0]
-            if isinstance(a, SList) and not a.opaque_tail and not lst.tail:
+            enum = self.iterate(a) if not (isinstance(a, SList) and a.kind == 'dict') else None
+            if enum is not None and not lst.tail and not lst.opaque_tail:
+                lst.items.extend(enum)
+                if lst.segs is not None:
+                    lst.segs.extend(('item', x) for x in enum)
+            elif isinstance(a, SList) and not a.opaque_tail and not lst.tail:
                 lst.items.extend(a.items)
             else:
                 lst.opaque_tail = True
@@ -748,8 +788,9 @@ class Exec:
             return None
         if attr in ('sort', 'reverse', 'insert', 'pop', 'remove', 'clear'):
             self.events.append(('mutate', lst.id, attr, args, kwargs))
-            if attr == 'pop' and args == (0,) and lst.items and not lst.opaque_tail:
-                return lst.items.pop(0)
+            if attr == 'pop' and len(args) <= 1 and lst.items and not lst.opaque_tail and not lst.tail and lst.kind == 'list' \
+                    and all(type(a) is int for a in args) and (not args or -len(lst.items) <= args[0] < len(lst.items)):
+                return lst.items.pop(*args)
             return T('call', (f'<list {lst.id}>.{attr}', args, kwargs)) if attr == 'pop' else None
         if attr == 'index' and len(args) == 1:
             return T('call', (f'{show(lst)}.index', args, ()))
@@ -1009,6 +1050,8 @@ class Exec:
                     break
         else:
             self.events.append(('loop-begin', seq, None))
+            self._loop_uid += 1
+            self.loops.append((self._loop_uid, seq))
             self.bind(st.target, T('elem', (seq,)), env)
             try:
                 self.block(st.body, env)
@@ -1022,24 +1065,31 @@ class Exec:
                 self.events.append(('loop-exit', seq))
                 raise
             finally:
+                self.loops.pop()
                 self.events.append(('loop-end', seq, None))
         if not broke and st.orelse:
             self.block(st.orelse, env)
 
     def s_While(self, st, env):
-        for _ in range(self.engine.max_unroll):
+        forked = 0
+        total = 0
+        while True:
+            nd = len(self.decisions)
             c = self.ev(st.test, env)
             if not self.truth(c, st.test):
                 break
+            total += 1
+            if forked >= self.engine.max_unroll or total > 400:
+                self.events.append(('loop-cut', ast.unparse(st.test)))
+                return
             try:
                 self.block(st.body, env)
             except Continue:
-                continue
+                pass
             except Break:
                 return
-        else:
-            self.events.append(('loop-cut', ast.unparse(st.test)))
-            return
+            if len(self.decisions) > nd:
+                forked += 1          # the iteration rested on an assumption: bounded unrolling
         if st.orelse:
             self.block(st.orelse, env)
 
@@ -1242,6 +1292,21 @@ class Engine:
 
 def canon(v):
     """Structural normal form of a value as nested tuples: lists by content, concatenation flattened, commutative operands ordered."""
+    if isinstance(v, SList) and v.segs is not None and any(x[0] == 'loop' for x in v.segs) and not v.tail:
+        def segs(ss):
+            parts, run = [], []
+            for x in ss:
+                if x[0] == 'item':
+                    run.append(canon(x[1]))
+                else:
+                    if run:
+                        parts.append(('L', tuple(run)))
+                        run = []
+                    parts.append(('foreach', canon(x[2]), segs(x[3])))
+            if run:
+                parts.append(('L', tuple(run)))
+            return tuple(parts)
+        return ('concat', segs(v.segs))
     if isinstance(v, SList):
         if v.origin is not None:
             seq, elt, conds = v.origin
